@@ -196,6 +196,16 @@ def check_cfg(fx, rep, crate, cfg):
     # R08.5 (handler side): Service::handle on every path
     rep.check(hc.postdominates(hb, 0), 'R08.5', '%s|handle-on-every-path|%s' % (fk, cfg), C.where(hc, hb),
               'Service::handle post-dominates the entry of the handler', 'there is a path through the handler that never calls Service::handle')
+    # R08.2b a single reply is final: continues is Some(false) or unset
+    for b, t in hc.iter_terms('call'):
+        if t['callee'].get('name') == 'set_continues' and 'reply::Reply' in (t['callee'].get('def') or ''):
+            tr = hc.trace(t['args'][1])
+            val = None
+            if tr.get('kind') == 'aggr' and tr['rv'].get('adt', '').endswith('option::Option'):
+                val = (tr['rv'].get('variant'), tr['rv']['ops'][0].get('val') if tr['rv'].get('ops') and tr['rv']['ops'][0].get('k') == 'const' else '?')
+            rep.check(val in (('Some', False), ('None', '?')), 'R08.2', '%s|single-reply-is-final|%s' % (fk, cfg), C.where(hc, b),
+                      'the reply to a plain call is marked continues=%s' % (val,),
+                      'the single reply of the handler is marked continues=%s: the client is told that more replies follow' % (val,))
     # R08.6 every reply operation flushes
     for b, t in enq_only:
         fl = [bb for bb, tt in hc.iter_terms('call') if tt['callee'].get('name') == 'flush']
